@@ -533,5 +533,10 @@ func cmdLockLoops() {
 			}
 			return true
 		})
+		for i, v := range localsInOrder(fi) {
+			if v.Name() != "_" && v.Name() != "" {
+				fmt.Printf("local\t%s\t%s\t%d\n", k, v.Name(), i)
+			}
+		}
 	}
 }
